@@ -1011,15 +1011,27 @@ func run(c *lib.Ctx) {
 		_ = pprof.StartCPUProfile(f)
 		defer pprof.StopCPUProfile()
 	}
-	ops := alphabet(c.Quick())
-	depth := 4
-	if !c.Quick() {
-		depth = 6
-	}
-	c.Note("alphabet", fmt.Sprintf("%d operations; subnet %s gateway %s pool %s-%s (3 addresses) lease 1h; depth bound %d", len(ops), subnet, gateway, poolStart, poolEnd, depth))
 	e := &engine{c: c}
-	x := &explorer{c: c, ops: ops, exec: e.exec, maxDepth: depth}
-	x.run()
+	type search struct {
+		tag   string
+		rich  bool
+		depth int
+	}
+	// quick: the small alphabet to depth 4.  thorough: the small alphabet to
+	// depth 6, then the rich one (4 clients, more hostnames and addresses) to
+	// depth 4.
+	searches := []search{{"small", false, 4}}
+	if !c.Quick() {
+		searches = []search{{"small", false, 6}, {"rich", true, 4}}
+	}
+	for _, s := range searches {
+		ops := alphabet(!s.rich)
+		c.Note(s.tag+"_alphabet", fmt.Sprintf("%d operations, depth bound %d; subnet %s gateway %s pool %s-%s (3 addresses) lease 1h", len(ops), s.depth, subnet, gateway, poolStart, poolEnd))
+		x := &explorer{tag: s.tag, c: c, ops: ops, exec: e.exec, maxDepth: s.depth}
+		if !x.run() {
+			return
+		}
+	}
 }
 
 func replay(c *lib.Ctx, raw json.RawMessage) string {
